@@ -1956,3 +1956,67 @@ func (p *Prog) lastDefIsReduce(s ast.Stmt, key string) bool {
 	}
 	return false
 }
+
+// Every coefficient handed to compose lies within the coefficient range (top word <= 0x27fffffffffff):
+// compose packs the fields without looking, so a larger coefficient spills into the exponent and
+// combination bits. Decided by the interval analysis (decompose and the rounding kernel are known to
+// deliver coefficients within the limit; constants are evaluated).
+func ruleComposeCoefficient(c *Ctx) {
+	p := c.P
+	lim := new(big.Int).SetUint64(coefLimitHi())
+	n := 0
+	for _, name := range p.sortedFuncNames() {
+		fd := p.Funcs[name]
+		if fd.Body == nil || name == "compose" {
+			continue
+		}
+		k := 0
+		walkStack(fd.Body, func(nd ast.Node, stack []ast.Node) {
+			call, ok := nd.(*ast.CallExpr)
+			if !ok || !p.isPkgFunc(call, "compose") || len(call.Args) != 3 {
+				return
+			}
+			k++
+			n++
+			key := fmt.Sprintf("coef:%s#%d", name, k)
+			fp := append([]string{"C12"}, funcProps(name)...)
+			arg := ast.Unparen(call.Args[1])
+			// a literal coefficient
+			if cl, ok := arg.(*ast.CompositeLit); ok && len(cl.Elts) == 2 {
+				if hi, ok := constBig(p.constOf(cl.Elts[1])); ok {
+					c.check(hi.Cmp(lim) <= 0, key, call, "constant coefficient within range", fmt.Sprintf("%s: the constant coefficient handed to compose has top word %#x, above the coefficient limit", name, hi), fp...)
+					return
+				}
+			}
+			sk := p.exprKey(arg)
+			var site ast.Node
+			for i := len(stack) - 1; i >= 0; i-- {
+				if _, ok := stack[i].(ast.Stmt); ok {
+					site = stack[i]
+					break
+				}
+			}
+			desc := "unknown"
+			okc := false
+			if sk != "" && site != nil {
+				save := p.ivCurFn
+				p.ivCurFn = fd
+				env, reached := p.envWalk(fd.Body.List, p.paramEnv(fd), site)
+				p.ivCurFn = save
+				if reached {
+					if env.isBottom() {
+						okc, desc = true, "unreachable"
+					} else if iv, ok := env[sk+"[1]"]; ok && iv.hi != nil {
+						desc = fmt.Sprintf("<= %#x", iv.hi)
+						okc = iv.hi.Cmp(lim) <= 0
+					}
+				}
+			}
+			c.check(okc, key, call, "the coefficient handed to compose is within the coefficient range ("+desc+")",
+				fmt.Sprintf("%s: the top word of the coefficient handed to compose is %s here; compose packs it unchecked, so it must have been compared with 0x0002_7fff_ffff_ffff after its last change", name, desc), fp...)
+		})
+	}
+	if n < 30 {
+		c.undecided("coef.count", nil, fmt.Sprintf("only %d compose call sites found", n))
+	}
+}
